@@ -295,6 +295,30 @@ def gen_program(rng, fam, profile):
             threads.append([("o0", "enter")] + inner + [("o0", "exit")])
         threads.append([gen_op(rng, is_dict, init, objs, handles, False, profile) for _ in range(rng.choice([1, 2]))])
         return Program(is_dict, inits, objs, handles, threads, None)
+    if profile == "writers" and inits and rng.random() < 0.22:
+        # a whole-content overwrite (root clear / reset: the operations that skip the load) racing an
+        # operation whose RESULT depends on the content, through an object that has not loaded yet
+        # (no handle was navigated through it), or through a second object on the file
+        objs = [0] if rng.random() < 0.6 else [0, 0]
+        a = "o0"
+        b = "o%d" % rng.randrange(len(objs))
+        v = rng.choice(VALS)
+        if is_dict:
+            over = rng.choice([(a, "dclear"), (a, "dreset", {rng.choice(["r", "a"]): v})])
+            # (setdefault of an existing key is the informative partner: what it returns says
+            # whether it ran before the overwrite, what it leaves says whether it ran after)
+            dep = rng.choice([(b, "dpop", "a", None), (b, "dsetdefault", "a", v), (b, "ddelitem", "a"),
+                              (b, "dpopitem"), (b, "dsetdefault", "new", v), (b, "dsetdefault", "a", "s"),
+                              (b, "dsetdefault", "d", v), (b, "dsetdefault", "l", 0)])
+        else:
+            over = rng.choice([(a, "lclear"), (a, "lreset", [v])])
+            dep = rng.choice([(b, "lpop", -1), (b, "lpop", 0), (b, "lremove", 1), (b, "ldelitem", 0), (b, "lremove", 3)])
+        threads = [[over], [dep]]
+        if rng.random() < 0.3:
+            threads[rng.randrange(2)].append(gen_op(rng, is_dict, init, objs, [], False, profile))
+        if rng.random() < 0.5:
+            threads.reverse()
+        return Program(is_dict, inits, objs, [], threads, None)
     for t in range(n_threads):
         ops = []
         n_ops = 1 if n_threads == 3 or rng.random() < 0.6 else 2
@@ -519,7 +543,12 @@ def c14_signature(prog, run, viol_kind):
         return "C14:buffered:flush-by-another-thread-during-lock-free-read"
     if prog.buffered and getattr(prog, "strategy", None) == "memory":
         # inside a shared-memory buffered context the objects bound to one file ARE one container:
-        # the lock-free read races with the writer exactly as on a single object
+        # the lock-free read races with the writer exactly as on a single object.  What the race
+        # spoils on the unchanged tree is the READ (an impossible value, an error from the container
+        # changing under the reader); the writers' own results and the final content stay those of a
+        # serial order - a lost or invented update there is a different thing and is not excused.
+        if viol_kind == "lost-update" or viol_kind.startswith("writer-"):
+            return "C14:shared-memory-buffered-objects:" + viol_kind.partition(":")[0]
         return "C14:shared-memory-buffered-objects:lock-free-read"
     where = "separate-objects:"
     if viol_kind != "lost-update":
